@@ -5,6 +5,7 @@ import concurrent.futures
 import glob
 import hashlib
 import os
+import re
 import shutil
 import subprocess
 import sys
@@ -54,7 +55,8 @@ def sandbox_home(fresh=False, tag=None):
             for d in os.listdir(base):
                 p = os.path.join(base, d)
                 try:
-                    if len(d) == 16 and d != name and _t.time() - os.path.getmtime(p) > 6 * 3600:
+                    old = _t.time() - os.path.getmtime(p) > 6 * 3600
+                    if old and d != name and (len(d) == 16 or re.search(r"-\d+$", d)):
                         shutil.rmtree(p, ignore_errors=True)
                 except OSError:
                     pass
